@@ -228,6 +228,20 @@ pub fn minimise(
     sig: &str,
     tolerate: &Arc<HashSet<String>>,
 ) -> Minimised {
+    minimise_budget(prop, sc, values, entropy, sig, tolerate, 2000, 60.0)
+}
+
+#[allow(clippy::too_many_arguments)]
+pub fn minimise_budget(
+    prop: &'static str,
+    sc: &Arc<dyn Scenario>,
+    values: Vec<u64>,
+    entropy: u64,
+    sig: &str,
+    tolerate: &Arc<HashSet<String>>,
+    max_reruns: u64,
+    max_secs: f64,
+) -> Minimised {
     let start = Instant::now();
     let mut reruns = 0u64;
     let mut fails = |vals: &Vec<u64>, reruns: &mut u64| -> bool {
@@ -235,7 +249,7 @@ pub fn minimise(
         let o = exec_run(prop, sc, Source::Tape { values: vals.clone(), entropy }, false, tolerate);
         o.violation.map(|v| v.signature(prop) == sig).unwrap_or(false)
     };
-    let budget = |reruns: u64| reruns < 2000 && start.elapsed().as_secs_f64() < 60.0;
+    let budget = |reruns: u64| reruns < max_reruns && start.elapsed().as_secs_f64() < max_secs;
     let mut cur = values;
     // sanity: the tape itself must reproduce
     if !fails(&cur, &mut reruns) {
@@ -645,7 +659,8 @@ pub fn run_check(def: &CheckDef, opts: &Opts) -> i32 {
         let mut path = String::from("-");
         if let Some(v) = &o.violation {
             if &v.signature(prop) == sig {
-                let m = minimise(prop, &b.scenario, o.values.clone(), seed, sig, &tol2);
+                // a known finding only needs a readable replay, not the smallest one
+                let m = minimise_budget(prop, &b.scenario, o.values.clone(), seed, sig, &tol2, 250, 8.0);
                 let fin = exec_run(prop, &b.scenario, Source::Tape { values: m.values.clone(), entropy: seed }, true, &tol2);
                 if fin.violation.as_ref().map(|v| &v.signature(prop) == sig).unwrap_or(false) {
                     path = write_replay(&opts.out, prop, b.scenario.name(), opts.seed, *idx, seed, &fin, sig, m.reruns, o.values.len());
